@@ -1515,7 +1515,7 @@ func (x *Exec) bodyHasPureCall(n ast.Expr) bool {
 
 var specBuiltinNames = map[string]bool{"forall": true, "exists": true, "implies": true, "iff": true, "old": true, "len": true, "cap": true, "val": true, "has": true,
 	"ite": true, "min": true, "max": true, "abs": true, "content": true, "strof": true, "fresh": true, "isNil": true, "unchanged": true, "gh": true, "pairkey": true,
-	"frameElems": true, "frameMaps": true, "cmpBytes": true, "arrayOf": true, "offsetOf": true, "sameSlice": true, "sameArray": true, "held": true, "rheld": true, "allocated": true, "bytesEq": true, "typeIs": true, "forallKeys": true, "existsKeys": true,
+	"frameElems": true, "frameMaps": true, "cmpBytes": true, "ref": true, "existing": true, "arrayOf": true, "offsetOf": true, "sameSlice": true, "sameArray": true, "held": true, "rheld": true, "allocated": true, "bytesEq": true, "typeIs": true, "forallKeys": true, "existsKeys": true,
 	"int": true, "int64": true, "uint64": true, "uint32": true, "uint16": true, "uint8": true, "uint": true, "int32": true, "byte": true, "mathint": true}
 
 // evalCallerSide evaluates a callee postcondition at a call site; clauses that talk about the callee's local variables
@@ -1893,7 +1893,8 @@ func (e *SpecEnv) builtinSpec(name string, c *ast.CallExpr) (Val, bool) {
 		sfail("cap of %s", kindName(a.K))
 	case "val":
 		a := arg(0)
-		if a.K != KRef {
+		// a *big.Int, or the integer identity of one held in a ghost array (see ref())
+		if a.K != KRef && !(a.K == KInt && (a.T == mathInt || isUntyped(a.T))) {
 			sfail("val() of %s", kindName(a.K))
 		}
 		return Val{K: KInt, T: types.Typ[types.UntypedInt], S: e.x.bigval(e.st, a.S)}, true
@@ -1937,6 +1938,13 @@ func (e *SpecEnv) builtinSpec(name string, c *ast.CallExpr) (Val, bool) {
 	case "sameArray":
 		a, b := arg(0), arg(1)
 		return boolVal(sAnd(sEq(a.Arr, b.Arr), sEq(a.Off, b.Off))), true
+	case "ref":
+		// ref(p): the object identity of a pointer as an integer (to relate pointers with ghost arrays, which hold integers)
+		a := arg(0)
+		if a.K != KRef {
+			sfail("ref() of a %s value", kindName(a.K))
+		}
+		return intVal(a.S, types.Typ[types.Int]), true
 	case "arrayOf":
 		a := arg(0)
 		return intVal(a.Arr, types.Typ[types.Int]), true
@@ -1953,6 +1961,15 @@ func (e *SpecEnv) builtinSpec(name string, c *ast.CallExpr) (Val, bool) {
 			t = a.Arr
 		}
 		return boolVal(sLt(e.old.alloc, t)), true
+	case "existing":
+		// existing(x): the object exists in the current state (allocated no later than now); with fresh(x) in a postcondition:
+		// allocated by the callee
+		a := arg(0)
+		t := a.S
+		if a.K == KSlice {
+			t = a.Arr
+		}
+		return boolVal(sLe(t, e.st.alloc)), true
 	case "allocated":
 		a := arg(0)
 		t := a.S
